@@ -34,7 +34,16 @@ MANIFEST = {
             "C08_eval_nodeset_nodup / C08_eval_nodeset_nodup_as_coded (every node-set value of every expression is strictly "
             "increasing in document order, hence duplicate free), C08_union_comm, C08_predicate_true_identity, "
             "C08_child_step_is_filter_of_children, C08_step_no_preds_is_union, C08_descendant_or_self_decomposes, "
-            "C08_fastpath_equiv (l[k='v'] selects exactly the instances whose key child has string value v); and (B) the "
+            "C08_fastpath_equiv (l[k='v'] selects exactly the instances whose key child has string value v); the lookup "
+            "clause (coq/XPathLookup.v): the as-coded condition of the key lookup as a boolean (ctx_free value: no relative "
+            "path start / implicit context node / position() / last() outside nested predicates; evaluates to a string or "
+            "exactly one node), the lookup itself (values evaluated once, instances whose key tuple has these values) and "
+            "C08_ctx_free_eval (such a value is the same for every instance, for every setting of the switches), "
+            "C08_lookup_eq_generic / C08_lookup_step_eq_generic (the lookup selects exactly the node-set, in the same order, "
+            "that generic evaluation of the predicates selects: every tree, context, context set, candidate list, number of "
+            "keys; recommendation flags - the type/canonical-form conditions of the code belong to the listed cmp-canonize "
+            "deviation), C08_lookup_answer_eq_eval (executable form, run on the pair-oracle inputs in the correspondence), "
+            "with the two defect classes repaired in 97c7154 as refutations of the old condition; and (B) the "
             "conversion kernels modelled as coded (cast_string_to_number: Number syntax check + strtold, lyxp_set_cast number->string: "
             "shortest decimal that strtold reads back, floorl/ceill, string-length/substring on bytes) with impl = spec theorems at "
             "full strength where the code follows the recommendation (C08_s2n_impl_eq_spec for EVERY string and precision, "
